@@ -170,6 +170,8 @@ def rewrites(rng, p, accepted, max_single=8):
                 out.append(("annotate-subset", scopegen.annotate(p, sub)))
         if sites:
             out.append(("annotate-all", scopegen.annotate(p, sites)))
+    if p.get("unmerged"):       # the consistently renamed twin: one of two same-named sibling bindings renamed
+        out.append(("rename-binding", p["unmerged"]))
     nif = scopegen.if_sites(p)
     if nif:
         out.append(("swap-branches/verdict-only", scopegen.swap_branches(p, rng.below(nif))))
@@ -351,6 +353,7 @@ def run(ctx):
         p = scopegen.gen_program(rng.fork(), broken)
         progs.append(p)
         texts.append(scopegen.render(p)["Main"])
+    texts += [scopegen.render(q)["Main"] for p in scopegen.sibling_programs() for q in (p, p["unmerged"])]
     texts += [scopegen.render(p)["Main"] for p in order_family()]     # member-order family: also through the ssa tie and the parser walkers
     base = list(texts)
     for t in base[: ctx.scale(120, 2000)]:
@@ -430,7 +433,7 @@ def run(ctx):
     # ---------- oracle: metamorphic run on the real checker
     nrandom = len(progs)
     path_fam = [scopegen.path_program(e) for e in scopegen.PATH_FAMILY]
-    progs = progs + mix_family(ctx) + path_fam
+    progs = progs + mix_family(ctx) + path_fam + scopegen.sibling_programs()
     fam_rng = common.Rng(0xC13)      # the deterministic families do not depend on VERIF_SEED
     lines, meta = [], []
     for pi, p in enumerate(progs):
